@@ -9,8 +9,8 @@ these definitions and `PsV/Props/C11.lean` proves theorems about exactly these d
 * `refNnls n A b` — reference solver: enumerate the 2ⁿ candidate supports, solve the square subsystem by exact
   Gauss–Jordan elimination, accept the first candidate that passes `kktCheck` with tolerance 0.
 * `spdCert` — all pivots of the elimination without row exchanges are positive (⇔ all leading minors > 0) and the
-  matrix is symmetric.  Used by the generator as the exact positive-definiteness certificate (Sylvester's criterion
-  itself is not formalised; see the assumptions of the check).
+  matrix is symmetric.  Used by the generator as the exact positive-definiteness certificate; proved equivalent to
+  `vᵀAv > 0 for v ≠ 0` (`spdCert_iff` in `PsV/Props/C11.lean`, through the `LDLᵀ` steps of the elimination).
 * `block3Run` — state-machine model of `nnls_normal_block3` (src/fitter/nnls.c) together with `walk_descents`
   (src/fitter/cholesky_solve.c).  The linear solve on the passive set (`modify_factor` + `cholmod_l_solve`), the
   residual evaluation of a trial point (`calc_residual`) and the dual update (`cholmod_l_sdmult`) are *parameters*
